@@ -31,6 +31,10 @@ def build_coq() -> tuple[bool, str]:
     os.makedirs(core.RUN_ROOT, exist_ok=True)
     with open(os.path.join(core.COQ, ".lock"), "w") as lk:
         fcntl.flock(lk, fcntl.LOCK_EX)
+        # the one regenerated input: pyarrow's alias catalogue (rewritten only when it changed)
+        g = subprocess.run([sys.executable, os.path.join(core.VERIF, "tools", "gen_alias_table.py")], capture_output=True, text=True)
+        if g.returncode != 0:
+            return False, "alias table generation failed: " + g.stderr[-1500:]
         if not os.path.exists(os.path.join(core.COQ, "Makefile")):
             subprocess.run(["coq_makefile", "-f", "_CoqProject", "-o", "Makefile"], cwd=core.COQ, check=True,
                            capture_output=True)
@@ -58,7 +62,7 @@ def props_file(pid: str) -> dict:
     src = open(fn).read()
     src_nc = re.sub(r"\(\*.*?\*\)", "", src, flags=re.S)
     theorems = re.findall(r"^\s*Theorem\s+([A-Za-z0-9_']+)", src_nc, flags=re.M)
-    r = subprocess.run(["timeout", "900", "coqc", "-Q", core.THEORIES, "NP", fn], capture_output=True, text=True,
+    r = subprocess.run(["timeout", "900", "coqc", "-Q", core.THEORIES, "NP", "-Q", os.path.join(core.COQ, "gen"), "NPgen", fn], capture_output=True, text=True,
                        cwd=core.COQ)
     ok = r.returncode == 0
     out = " ".join(r.stdout.split())
@@ -153,7 +157,7 @@ def main():
 
     # 2. correspondence stream
     mod = importlib.import_module(f"harness.streams.{pid.lower()}")
-    ctx.runner = core.CoqRunner(pid, getattr(mod, "EXTRA_IMPORTS", ""))
+    ctx.runner = core.CoqRunner(pid, getattr(mod, "EXTRA_IMPORTS", ""), getattr(mod, "EXTRA_HEADER", ""))
     kf = findings.load()
     cases, failing = [], {}
     stream_error = None
